@@ -81,6 +81,45 @@ S = {
          'an edge gained or lost in parallel to an existing edge between the same nodes'),
  'S39': ('`raise _TimeLimitReached` moved inside `if thread.is_alive()`',
          'function finishing just past the limit while the limiter tears its pool down: None returned instead of TimeoutError'),
+ 'S41': ('GraphProcessor.get_graph: connection-stage cache key no longer contains the choice node',
+         '>= 2 connection choices WITHOUT design variables (exactly one valid set) active together and adjacent in processing order'),
+ 'S42': ('DSG.set_influence_matrix keeps an existing influence matrix of the same object',
+         'an initialised BasicDSG edited in place with plain derivation edges and initialised again'),
+ 'S43': ('LazyImputer cache key built from the existence masks only (degree overrides dropped)',
+         'grouping node over a permanent and a conditional connector (same mask, different overridden degree), lazy non-pattern encoder, the same invalid sub-vector decoded under both patterns on one processor'),
+ 'S44': ('get_additional_dv_stats multiplies over all dv columns (continuous columns hold 0 when inactive)',
+         'a discrete dv node plus a conditionally active continuous dv node; n_valid / imputation ratio'),
+ 'S45': ('fix_des_var refreshes the fixed-combination mask only `if idx in _sel_choice_idx_map`',
+         'COMPLETE encoder, forced selection choice in front of a non-forced one, fix/free of the later variable'),
+ 'S46': ('get_incompatibility_deriving_nodes memoised per target node in the shared cache',
+         'two incompatibility constraints on different options, one node deriving both targets, a second deriver visited earlier, a choice behind the wrongly removed nodes'),
+ 'S47': ('EagerEncoder.get_matrix returns a view of the stored design vectors + _correct_is_active writes through np.asarray (two cooperating sites)',
+         'eager encoder with inactive variables, imputation ratio > 1, a raw vector imputed onto design X earlier in the same process, then any other route to X'),
+ 'S48': ('InfluenceMatrix.apply_selection_choice: early return for an option-less choice writes into the shared status array',
+         'over-constraining constrain_choices on a COPY (3 choices x 2 options, UNORDERED_NOREPL): the original loses its next choices'),
+ 'S49': ('_validate_matrix: branch "more connections than the overridden list holds" removed',
+         'degree override on an OPEN-ENDED connector and a row/column sum beyond the override table'),
+ 'S50': ('QuasiLazyEncoder._get_all_design_vectors: `.get(existence) or self.design_vars`',
+         'enumerating encoder, existence pattern with exactly one valid matrix next to a pattern with >= 2'),
+ 'S51': ('NodeExistence.get_effective_settings: `continue` -> `break` when an excluded pair touches an absent connector',
+         '>= 2 exclusion edges, an earlier-listed one touching a conditional connector that is absent in some scenario'),
+ 'S52': ('EncoderSelector._get_best (by information index): positional argmax used as a pandas label',
+         'score table in which no candidate has a distance correlation (fallback stages 2 / 4) and the winner is not a leading row'),
+ 'S53': ('fast.py::_get_selection_choice_is_forced: sorted() dropped (master of a LINKED group by name order)',
+         'LINKED over a conditional choice that sorts first by name and a permanent one; FAST encoder'),
+ 'S54': ('same change as S53 (offered for C14)', 'as S53: 2 of 6 architectures reachable with FAST'),
+ 'S55': ('_update_comb_fixed_mask passes design-variable indices instead of choice indices',
+         'COMPLETE encoder, forced selection choice in front of the fixed variable'),
+ 'S56': ('DesignVariableNode.correct_value clamps before int(round())',
+         'set_des_var_value on a graph with a non-integer value in (len-0.5, len)'),
+ 'S57': ('get_non_confirmed_nodes walks all out-edges (also EXCLUDES / INCOMPATIBILITY)',
+         'metric derived from a conditional connector that is the target of an exclusion edge from a permanent connector'),
+ 'S58': ('DSG.ordered_choice_nodes sorts set(choice_nodes)',
+         'dv nodes sharing a name (told apart by idx) / equal ordering keys; rebuilt in another process or with other ids'),
+ 'S59': ('run_timeout: (success, value) pair replaced by isinstance(result, BaseException)',
+         'function that finishes in time and RETURNS an exception instance'),
+ 'S60': ('SupSelChoiceOptionMapping.resolve skips a choice that is not active yet and never revisits it',
+         'nested supplementary choice whose option mapping was registered before its parent\'s'),
  'S40': ('SupDSG.resolve memoised per set of existing source node names',
          'two source architectures with the same node set and different selections resolved on one SupDSG'),
 }
